@@ -9,14 +9,36 @@ from vlib import Infra
 from checks import sshdfam
 
 
-def run(ctx):
-    mc = ctx.tlc("SshdProc", "SshdProc.cfg", workers=4, timeout=300, name="mc")
+def scripts(ctx):
     ex = ctx.tlc("SshdProc", "SshdProc_export.cfg", workers=1, timeout=300, name="scen")
     scs = sorted({json.dumps(s, sort_keys=True) for s in vlib.tlc_prints(ex["stdout"], "SCEN")})
     if len(scs) != 54:
         raise Infra("expected 54 scenario scripts, got %d" % len(scs))
     sp = ctx.path("scen.jsonl")
     open(sp, "w").write("\n".join(scs) + "\n")
+    return scs, sp
+
+
+def scenarios(ctx, sp, vp, reps):
+    """Realise every script on the real processor and validate the recorded events with SshdProcTrace."""
+    binp = ctx.go_build("./cmd/sshdproc")
+    trp = ctx.path("trace-scen.ndjson")
+    ctx.run([binp, "-scen", sp, "-vectors", vp, "-out", trp, "-seed", str(ctx.seed), "-reps", str(reps)], timeout=1800)
+    sbad, slines, sstates = sshdfam.validate(ctx, trp, "scen", parts=1, module="SshdProcTrace",
+                                             cfg="SshdProcTrace.cfg")
+    lines = [json.loads(l) for l in open(trp)]
+    runs, cur = {}, None
+    for r in lines:
+        if r["k"] == "reset":
+            cur = r["idx"]
+            runs[cur] = []
+        runs[cur].append(r)
+    return sbad, runs, slines, trp
+
+
+def run(ctx):
+    mc = ctx.tlc("SshdProc", "SshdProc.cfg", workers=4, timeout=300, name="mc")
+    scs, sp = scripts(ctx)
     # vectors (lines for the scenarios, and the Login predicate over all of them)
     fams, preds = sshdfam.PROPS["C05"]
     vecs, vres = sshdfam.enumerate_vectors(ctx, fams, full=not ctx.quick)
@@ -32,22 +54,11 @@ def run(ctx):
                           {"kind": "sshd-vector", "pid": r["pid"], "line": r["line"], "expected_login": r["login"],
                            "observed": r["direct"]})
     # scenarios on the real processor
-    binp = ctx.go_build("./cmd/sshdproc")
-    vp = ctx.path("vectors-vec.jsonl")
-    trp = ctx.path("trace-scen.ndjson")
-    reps = 3 if ctx.quick else 15
-    p = ctx.run([binp, "-scen", sp, "-vectors", vp, "-out", trp, "-seed", str(ctx.seed), "-reps", str(reps)],
-                timeout=1800)
-    st = json.loads(p.stdout.strip().splitlines()[-1])
-    sbad, slines, sstates = sshdfam.validate(ctx, trp, "scen", parts=1, module="SshdProcTrace",
-                                             cfg="SshdProcTrace.cfg")
-    lines = [json.loads(l) for l in open(trp)]
-    runs, cur = {}, None
-    for r in lines:
-        if r["k"] == "reset":
-            cur = r["idx"]
-            runs[cur] = []
-        runs[cur].append(r)
+    sbad, runs, slines, trp = scenarios(ctx, sp, ctx.path("vectors-vec.jsonl"), 3 if ctx.quick else 15)
+    cbad = [b for b in sbad if b["what"] == "counter"]
+    if cbad:
+        ctx.notes.append("%d scenario run(s) break the counter rule of C19 (reported by the C19 check)" % len(cbad))
+    sbad = [b for b in sbad if b["what"] != "counter"]
     for b in sbad:
         rr = runs[b["scen"]]
         ctx.violation("scenario/%s/%s" % (b["what"], json.dumps(rr[0]["sc"], sort_keys=True)),
